@@ -77,7 +77,7 @@ impl Prop for C09 {
         "fault_enumeration"
     }
     fn rule(&self) -> String {
-        "completeness: consistent chains with tx counts 1..9,15..17,31..33,63..65,100,255,256,257 per block, random --start, 8 coins (block 0 = the real genesis block for bitcoin/testnet3/litecoin/dogecoin/namecoin, --start 1 for the other three), under benign perturbation: must exit 0 with model-equal output. Soundness, enumerated per sampled world and processed height: every single bit of the prev-hash field, of the merkle-root field and of the txid-covered transaction bytes flipped on the simulated disk (one run each), every block swapped for a block of another chain or of another height, and a non-genesis block 0 for all 8 coins: must exit non-zero, leave no final-named file, report that height if a height is reported, and read no block beyond it. Non-trivial = fault applied inside the processed range (or a consistent chain with >=2 txs in some block); distinct by scenario hash.".into()
+        "completeness: consistent chains with tx counts 1..9,15..17,31..33,63..65,100,255,256,257 per block, random --start, 8 coins (block 0 = the real genesis block for bitcoin/testnet3/litecoin/dogecoin/namecoin/myriadcoin/unobtanium, rebuilt offline and hash-verified; --start 1 for noteblockchain), under benign perturbation: must exit 0 with model-equal output. Soundness, enumerated per sampled world and processed height: every single bit of the prev-hash field, of the merkle-root field and of the txid-covered transaction bytes flipped on the simulated disk (one run each), every block swapped for a block of another chain or of another height, and a non-genesis block 0 for all 8 coins: must exit non-zero, leave no final-named file, report that height if a height is reported, and read no block beyond it. Non-trivial = fault applied inside the processed range (or a consistent chain with >=2 txs in some block); distinct by scenario hash.".into()
     }
     fn exhaustive_note(&self) -> Option<String> {
         Some("per sampled block: every bit of the prev field (256), the merkle field (256) and the witness-stripped tx bytes is flipped; worlds are sampled".into())
